@@ -118,5 +118,165 @@ theorem parallel_eq_serial : ∀ (pos : Nat) (gs : List (Replica H)) (eqs : List
   | _, [_], _ :: _, s, h => by simp at h
   | _, _ :: _ :: _, [], _, h => by simp at h; omega
 
+/-! ### the two phases -/
+
+/-- what the step needs from a swap routine -/
+structure GoodSwap (f : SwapFn H) : Prop where
+  frame : ∀ pos gs eqs s, (f pos gs eqs s).1.map Replica.frame = gs.map Replica.frame
+  cutoff : ∀ pos gs eqs s, (f pos gs eqs s).1.map (·.cutoff) = gs.map (·.cutoff)
+  perm : ∀ pos gs eqs s, ((f pos gs eqs s).1.map (·.cfg)).Perm (gs.map (·.cfg))
+
+theorem goodSwap_serial : GoodSwap (performSwaps I) :=
+  ⟨fun pos gs eqs s => (performSwaps_frame I pos gs eqs s).1,
+   fun pos gs eqs s => (performSwaps_frame I pos gs eqs s).2,
+   performSwaps_perm I⟩
+
+theorem split_first {α : Type} (gs : List α) :
+    firstSub gs ++ gs.drop (firstLen gs.length) = gs := List.take_append_drop _ _
+
+theorem secondEnd_pos {n : Nat} (h : 0 < n) : 1 ≤ secondEnd n := by
+  unfold secondEnd; split <;> omega
+
+theorem split_second {α : Type} (gs : List α) :
+    gs.take 1 ++ secondSub gs ++ gs.drop (secondEnd gs.length) = gs := by
+  cases gs with
+  | nil => simp [secondSub]
+  | cons a t =>
+    have h1 : 1 ≤ secondEnd (a :: t).length := secondEnd_pos (by simp)
+    unfold secondSub
+    have : (a :: t).take 1 = ((a :: t).take (secondEnd (a :: t).length)).take 1 := by
+      rw [List.take_take, Nat.min_eq_left h1]
+    rw [this, List.take_append_drop, List.take_append_drop]
+
+section
+variable {I}
+variable {f : SwapFn H} (hf : GoodSwap f)
+include hf
+
+theorem phaseA_frame (gs : List (Replica H)) (eqs : List Bool) (s : RS) :
+    (phaseA f gs eqs s).1.map Replica.frame = gs.map Replica.frame ∧
+    (phaseA f gs eqs s).1.map (·.cutoff) = gs.map (·.cutoff) ∧
+    ((phaseA f gs eqs s).1.map (·.cfg)).Perm (gs.map (·.cfg)) := by
+  unfold phaseA
+  simp only [List.map_append]
+  refine ⟨?_, ?_, ?_⟩
+  · rw [hf.frame, ← List.map_append, split_first]
+  · rw [hf.cutoff, ← List.map_append, split_first]
+  · have h1 := (hf.perm 0 (firstSub gs) eqs s).append_right ((gs.drop (firstLen gs.length)).map (·.cfg))
+    have h2 : (firstSub gs).map (·.cfg) ++ (gs.drop (firstLen gs.length)).map (·.cfg) = gs.map (·.cfg) := by
+      rw [← List.map_append, split_first]
+    rw [h2] at h1; exact h1
+
+theorem phaseB_frame (gs : List (Replica H)) (eqs : List Bool) (s : RS) :
+    (phaseB f gs eqs s).1.map Replica.frame = gs.map Replica.frame ∧
+    (phaseB f gs eqs s).1.map (·.cutoff) = gs.map (·.cutoff) ∧
+    ((phaseB f gs eqs s).1.map (·.cfg)).Perm (gs.map (·.cfg)) := by
+  unfold phaseB
+  simp only [List.map_append]
+  refine ⟨?_, ?_, ?_⟩
+  · rw [hf.frame, ← List.map_append, ← List.map_append, split_second]
+  · rw [hf.cutoff, ← List.map_append, ← List.map_append, split_second]
+  · have h1 := ((hf.perm 1 (secondSub gs) eqs s).append_left ((gs.take 1).map (·.cfg))).append_right
+      ((gs.drop (secondEnd gs.length)).map (·.cfg))
+    have h2 : (gs.take 1).map (·.cfg) ++ (secondSub gs).map (·.cfg) ++
+        (gs.drop (secondEnd gs.length)).map (·.cfg) = gs.map (·.cfg) := by
+      rw [← List.map_append, ← List.map_append, split_second]
+    rw [h2] at h1; exact h1
+
+end
+
+/-! ### cutoff equalisation -/
+
+theorem map_setCutoff_frame (gs : List (Replica H)) (m : Nat) :
+    (gs.map (·.setCutoff m)).map Replica.frame = gs.map Replica.frame := by
+  simp [List.map_map, Function.comp_def, Replica.setCutoff, Replica.frame]
+
+theorem map_setCutoff_cutoff (gs : List (Replica H)) (m : Nat) :
+    (gs.map (·.setCutoff m)).map (·.cutoff) = gs.map (fun _ => m) := by
+  simp [List.map_map, Function.comp_def, Replica.setCutoff]
+
+theorem foldl_max_ge (gs : List (Replica H)) : ∀ (m0 : Nat),
+    m0 ≤ gs.foldl (fun m r => max m r.cutoff) m0 ∧
+    ∀ r ∈ gs, r.cutoff ≤ gs.foldl (fun m r => max m r.cutoff) m0 := by
+  induction gs with
+  | nil => intro m0; simp
+  | cons a t ih =>
+    intro m0
+    simp only [List.foldl_cons, List.mem_cons]
+    have h := ih (max m0 a.cutoff)
+    refine ⟨le_trans (le_max_left _ _) h.1, ?_⟩
+    rintro r (rfl | hr)
+    · exact le_trans (le_max_right _ _) h.1
+    · exact h.2 r hr
+
+theorem le_maxCutoff {gs : List (Replica H)} {r : Replica H} (h : r ∈ gs) : r.cutoff ≤ maxCutoff gs :=
+  (foldl_max_ge gs 0).2 r h
+
+/-- the maximum is attained (non-empty ladder): equalisation never invents a larger cutoff -/
+theorem maxCutoff_attained : ∀ (gs : List (Replica H)) (m0 : Nat),
+    gs.foldl (fun m r => max m r.cutoff) m0 = m0 ∨
+      ∃ r ∈ gs, gs.foldl (fun m r => max m r.cutoff) m0 = r.cutoff := by
+  intro gs
+  induction gs with
+  | nil => intro m0; simp
+  | cons a t ih =>
+    intro m0
+    simp only [List.foldl_cons, List.mem_cons]
+    rcases ih (max m0 a.cutoff) with h | ⟨r, hr, h⟩
+    · rw [h]
+      rcases Nat.le_total m0 a.cutoff with h1 | h1
+      · right; exact ⟨a, Or.inl rfl, by rw [Nat.max_eq_right h1]⟩
+      · left; exact Nat.max_eq_left h1
+    · right; exact ⟨r, Or.inr hr, h⟩
+
+theorem padTo_length (s : Slots) (c : Nat) (h : s.length ≤ c) : (padTo s c).length = c := by
+  simp [padTo]; omega
+
+theorem countOps_padTo (s : Slots) (c : Nat) : countOps (padTo s c) = countOps s := by
+  simp [padTo, countOps, List.filter_append]
+
+/-! ### the whole step -/
+
+theorem stepCore_spec (fa : SwapFn H) (hfa : GoodSwap fa) (ts : Nat) (eqs : List Bool × List Bool)
+    (gs : List (Replica H)) (g : Bool × RS) :
+    (stepCore I fa ts eqs gs g).1.graphs.map Replica.frame = gs.map Replica.frame ∧
+    (stepCore I fa ts eqs gs g).1.graphs.map (·.cutoff) = gs.map (·.cutoff) ∧
+    ((stepCore I fa ts eqs gs g).1.graphs.map (·.cfg)).Perm (gs.map (·.cfg)) ∧
+    (stepCore I fa ts eqs gs g).1.totalSwaps = ts + countAccepted (stepCore I fa ts eqs gs g).2 ∧
+    (stepCore I fa ts eqs gs g).1.eqA = some eqs.1 ∧ (stepCore I fa ts eqs gs g).1.eqB = some eqs.2 := by
+  have hs := goodSwap_serial I
+  unfold stepCore
+  by_cases hg : g.1 = true
+  · rw [if_pos hg]
+    have ha := phaseA_frame hfa gs eqs.1 g.2
+    have hb := phaseB_frame hs (phaseA fa gs eqs.1 g.2).1 eqs.2 (phaseA fa gs eqs.1 g.2).2.2
+    refine ⟨?_, ?_, ?_, ?_, rfl, rfl⟩
+    · rw [hb.1, ha.1]
+    · rw [hb.2.1, ha.2.1]
+    · exact hb.2.2.trans ha.2.2
+    · simp [countAccepted, List.filter_append, Nat.add_assoc]
+  · rw [if_neg hg]
+    have hb := phaseB_frame hs gs eqs.2 g.2
+    have ha := phaseA_frame hfa (phaseB (performSwaps I) gs eqs.2 g.2).1 eqs.1
+      (phaseB (performSwaps I) gs eqs.2 g.2).2.2
+    refine ⟨?_, ?_, ?_, ?_, rfl, rfl⟩
+    · rw [ha.1, hb.1]
+    · rw [ha.2.1, hb.2.1]
+    · exact ha.2.2.trans hb.2.2
+    · simp [countAccepted, List.filter_append, Nat.add_assoc]
+
+theorem stepBody_spec (fa : SwapFn H) (hfa : GoodSwap fa) (c : Container H) :
+    (stepBody I fa c).1.graphs.map Replica.frame = c.graphs.map Replica.frame ∧
+    (stepBody I fa c).1.graphs.map (·.cutoff) = c.graphs.map (fun _ => maxCutoff c.graphs) ∧
+    ((stepBody I fa c).1.graphs.map (·.cfg)).Perm
+      ((c.graphs.map (·.setCutoff (maxCutoff c.graphs))).map (·.cfg)) ∧
+    (stepBody I fa c).1.totalSwaps = c.totalSwaps + countAccepted (stepBody I fa c).2 := by
+  unfold stepBody
+  have h := stepCore_spec I fa hfa c.totalSwaps (hamEqualities I c)
+    (c.graphs.map (·.setCutoff (maxCutoff c.graphs))) (c.rng.genBool (1 / 2))
+  refine ⟨?_, ?_, h.2.2.1, h.2.2.2.1⟩
+  · rw [h.1, map_setCutoff_frame]
+  · rw [h.2.1, map_setCutoff_cutoff]
+
 end Tempering
 end Qmc
